@@ -17,7 +17,7 @@ Event(ev) ==
     CASE ev.ev = "Arrive" -> /\ Arrive(ev.e)
                              /\ ev.drop = (IF slotOwns THEN slot ELSE 0)
                              /\ (ev.dropFired <=> (Len(fired') > Len(fired)))
-      [] ev.ev = "CbEmit" -> CbEmit /\ slot = ev.e
+      [] ev.ev = "CbEmit" -> CbEmit /\ slot = ev.e /\ ev.md = <<ev.e>>
       [] ev.ev = "ConsumerDone" -> ConsumerDone
       [] ev.ev = "CbRelease" -> CbRelease /\ hand = ev.e /\ rc'[ev.e] = ev.count
                                 /\ (ev.fired <=> (Len(fired') > Len(fired)))
